@@ -231,10 +231,59 @@ def run(ck):
         return
     # the sanitizer call(s) in apply_one_file_patch
     calls = [(bb, t) for bb, t in ao.calls() if (callee_of(t).get("rpath") or "") in sans]
-    if not ck.require(len(calls) >= 1, rule, "apply_one_file_patch calls the sanitizer", "the sanitizer %s is not called in apply_one_file_patch" % sorted(sans), ao.where()):
-        return
     covered = set()
     accept_edges = []
+    comb_done = []
+    # the same check spelled with an iterator combinator: names.find(|n| !is_safe(n)) / any(..) / all(..)
+    for bb, t in ao.calls():
+        p = callee_of(t).get("path") or ""
+        comb = p.split("::")[-1]
+        if ao.blocks[bb]["cleanup"] or not p.endswith(("Iterator::find", "Iterator::any", "Iterator::all", "Iterator::position")) or len(t["args"]) < 2:
+            continue
+        ce = df.operand_expr(ao, t["args"][1])
+        if not (isinstance(ce, tuple) and ce and ce[0] == "closure" and ce[1] in prog.fns):
+            continue
+        cl = prog.fns[ce[1]]
+        r0 = df.local_expr(cl, 0)
+        neg = False
+        while isinstance(r0, tuple) and r0 and r0[0] == "un" and r0[1] == "Not":
+            r0, neg = r0[2], not neg
+        if not (isinstance(r0, tuple) and r0 and r0[0] == "call" and r0[1] in sans and df.mentions(r0, lambda x: isinstance(x, tuple) and x[0] == "param" and x[1] >= 2)):
+            continue
+        true_means_unsafe = (sans[r0[1]] == neg)       # polarity True: sanitizer true = safe
+        locs = df.operand_trace(ao, t["args"][0])
+        for l in locs:
+            for dd in df.defs_of(ao).all(l):
+                if dd[0] == "call":
+                    pth = callee_of(dd[2]).get("rpath") or ""
+                    if pth.endswith("::old_filename"):
+                        covered.add("old_filename")
+                    if pth.endswith("::new_filename"):
+                        covered.add("new_filename")
+        accept = reject = None
+        if comb in ("find", "position") and true_means_unsafe:
+            for sw in pt.discr_switches(ao, lambda e, rv: "p" not in rv["pl"] and rv["pl"]["l"] in df.operand_trace(ao, {"k": "copy", "pl": t["dest"]}) | {t["dest"]["l"]}):
+                accept, reject = sw["edges"].get("None"), sw["edges"].get("Some")
+        elif comb in ("any", "all"):
+            for g in guards.find_bool_guards(ao, lambda e: isinstance(e, tuple) and e[0] == "call" and e[1].endswith("Iterator::" + comb)):
+                unsafe_edge = g["true_edge"] if (comb == "any") == true_means_unsafe else g["false_edge"]
+                safe_edge = g["false_edge"] if unsafe_edge == g["true_edge"] else g["true_edge"]
+                if (comb == "any" and true_means_unsafe) or (comb == "all" and not true_means_unsafe):
+                    accept, reject = safe_edge, unsafe_edge
+        if accept is None or reject is None:
+            ck.violate(rule, "verdict of %s(..) over the names is branched on" % comb, "cannot tell which branch means 'some name is unsafe'", ao.where(t))
+            continue
+        r = cfg.reachable(ao, [reject[1]])
+        oks = [b2 for b2 in r for s_ in ao.blocks[b2]["stmts"]
+               if s_["k"] == "assign" and s_["lhs"]["l"] == 0 and "p" not in s_["lhs"] and s_["rv"]["k"] == "agg" and s_["rv"].get("variant") == "Ok"]
+        rets_err = any(s_["k"] == "assign" and s_["lhs"]["l"] == 0 and s_["rv"]["k"] == "agg" and s_["rv"].get("variant") == "Err"
+                       for b2 in r for s_ in ao.blocks[b2]["stmts"])
+        ck.require(not oks and rets_err, rule, "an unsafe name makes apply_one_file_patch fail",
+                   "from the branch taken when %s(..) found an unsafe name %s" % (comb, "an Ok return is still reachable" if oks else "no Err is returned"), ao.where(t),
+                   ok_detail="%s(..) over the names: the 'unsafe' branch returns Err" % comb)
+        comb_done.append(accept)
+    if not ck.require(len(calls) + len(comb_done) >= 1, rule, "apply_one_file_patch calls the sanitizer", "the sanitizer %s is not called in apply_one_file_patch" % sorted(sans), ao.where()):
+        return
     for bb, t in calls:
         pol = sans[callee_of(t)["rpath"]]
         locs = df.operand_trace(ao, t["args"][0])
@@ -272,6 +321,8 @@ def run(ck):
     for il in pt.iterator_loops(ao):
         if check_bbs & il["body"] and il["none_edge"]:
             done_edges.append(il["none_edge"])
+    if comb_done:
+        done_edges = done_edges + comb_done
     if not done_edges:
         done_edges = [a for g, a in accept_edges]
         need_all = True
